@@ -93,11 +93,12 @@ theorem fit_completes (hW : WellStaged P Fn) (hL : Legal P Fn d init) {s : State
     simp only [step, this, hc, true_and]
     intro hb; simp [hb]
 
-/-- a fitted estimator is a fixed point of `fit()` -/
+/-- a fitted estimator is a fixed point of `fit()` (with `build_predict=False` the state has no predictor: it is dropped
+    and rebuilt lazily) -/
 theorem fit_fixed (hW : WellStaged P Fn) (hL : Legal P Fn d init) (s : State Attr V) (b0 : Tok)
     (hx : s.x = some b0) (hb0 : b0.content = d) (hc : s.cache = refCache P Fn d init)
     (hp : s.pre = some (refPre P Fn d init)) (hf : s.fitted = some (refFit P Fn d init)) (b : Bool)
-    (hq : b = true → s.predictor = some (refPred P Fn d init)) :
+    (hq : s.predictor = if b then some (refPred P Fn d init) else none) :
     doFit P Fn s none b = (.ok, s) := by
   have hprep : doPrepare P Fn s none = (.ok, s) := by
     rw [doPrepare_bound P Fn hx, hb0, hc]
@@ -107,10 +108,8 @@ theorem fit_fixed (hW : WellStaged P Fn) (hL : Legal P Fn d init) (s : State Att
   cases s with
   | mk x cache pre fitted predictor nextId =>
     simp only at hp hf hq
-    subst hp hf
-    cases b
-    · rfl
-    · simp [hq rfl]
+    subst hp hf hq
+    cases b <;> rfl
 
 /-- Repeated `fit()` / `fit_predict()` without new data: the second call changes nothing at all. -/
 theorem refit_idempotent (hW : WellStaged P Fn) (hL : Legal P Fn d init) {s : State Attr V}
@@ -129,7 +128,7 @@ theorem refit_idempotent (hW : WellStaged P Fn) (hL : Legal P Fn d init) {s : St
   have hfix : doFit P Fn (doFit P Fn s none b).2 none b = (.ok, (doFit P Fn s none b).2) := by
     apply fit_fixed P Fn d init hW hL _ b0 (by rw [h1]; exact hx) hb (by rw [h1]; exact hc) (by rw [h1])
       (by rw [h1]) b
-    intro hbt; rw [h1]; simp [hbt]
+    rw [h1]
   have hfp : ∀ s' : State Attr V, s'.x = some b0 → doFitPredict P Fn s' none b = doFit P Fn s' none b := by
     intro s' hx'; simp [doFitPredict, hx']
   refine ⟨by simp [step, h1], by simpa [step] using hfix, ?_⟩
